@@ -150,11 +150,32 @@ def run(ctx):
         cls = kind.split("/")[0]
         case = {"fam": d["fam"], "leaf": d["leaf"], "mode": d["mode"], "idx": int(d["idx"]), "kind": kind, "record": d, "zeromove": zeromove}
         if d["fam"] != "probe":
-            todo.append((_key(d), d, (lambda c: (lambda: _rerun(tmp, binary, c, zeromove)))(case)))
+            todo.append((_key(d), d, case))
         det = " ".join("%s=%s" % (a, v) for a, v in d.items() if a not in ("kind", "fam", "leaf", "idx", "mode", "tree", "rank"))
         violations.append(common.Violation(_key(d), "%s; %d minimal failing trees of this shape (%d failing trees in all) in this run; first: leaf=%s %s" % (
             CLS.get(cls, cls), k["count"], allfail.get(kind, k["count"]), d["leaf"], det), case))
-    mpix.confirm_all("C30", todo)
+    # rule 3, batched: the failing trees of each (family, leaf, mode) are re-run twice in simulations that contain nothing else
+    # (one process per group instead of one per tree: the machine is shared and a process start costs seconds)
+    groups = {}
+    for key, d, case in todo:
+        groups.setdefault((case["fam"], case["leaf"], case["mode"]), []).append((key, d, case))
+
+    def _confirm_group(item):
+        (fam, leaf, mode), members = item
+        ids = ",".join(str(c["idx"]) for _, _, c in members)
+        bad = []
+        for attempt in (1, 2):
+            rc, out, err = mpix.smpirun(tmp, binary, _np(mode), [mode, fam, leaf, 0, 1, ids, 0, zeromove], timeout=900)
+            vs = [v for t, v in mpix.records(out) if t == "V"]
+            for key, d, c in members:
+                if not any(mpix.same_record(v, d) for v in vs):
+                    bad.append("%s (attempt %d, rc=%s)" % (key, attempt, rc))
+        return bad
+    with cf.ThreadPoolExecutor(max_workers=common.NCPU) as ex:
+        bad = [b for bs in ex.map(_confirm_group, groups.items()) for b in bs]
+    if bad:
+        common.log("C30: violations that did not reproduce in isolation (harness bug):\n  " + "\n  ".join(bad[:20]))
+        sys.exit(2)
     for c in crashes:
         # a crash is first re-run alone; when it only shows as the end of its segment (heap damaged by earlier trees of the same
         # simulation) the segment is the case: simulations are deterministic, the same segment must die at the same tree twice
@@ -172,6 +193,10 @@ def run(ctx):
         violations.append(common.Violation("C30 crash ctx=%s shape=%s tree=%s via=%s" % (case["ctx"], nm["shape"], nm["tree"], c["mode"]),
                                            "%s (signal %s, leaf=%s)" % (CLS["crash"], c["sig"], c["leaf"]), case))
 
+    if os.environ.get("VERIF_C30_DUMP"):      # development aid: write the proposed known-finding lines of this run
+        with open(os.environ["VERIF_C30_DUMP"], "w") as f:
+            for v in violations:
+                f.write("known: property=C30 %s :: %s\n" % (v.key, v.what.split(";")[0]))
     nontriv = agg.tot["noncontiguous"]
     cov = {
         "evaluations": agg.tot["trees"],
